@@ -172,14 +172,21 @@ echs_instant_diff(echs_instant_t end, echs_instant_t beg)
 	int extra_df;
 	int intra_df;
 
+/* a day as such begins at midnight, a second as such with its first
+ * millisecond; the markers for those are no hours or milliseconds */
+#define HOUR_OF(x)	(echs_instant_all_day_p(x) ? 0 : (int)(x).H)
+#define MSEC_OF(x)	(echs_instant_all_day_p(x) || echs_instant_all_sec_p(x) \
+			 ? 0 : (int)(x).ms)
 	/* just see what the intraday part yields for the difference */
-	intra_df = end.H - beg.H;
+	intra_df = HOUR_OF(end) - HOUR_OF(beg);
 	intra_df *= MINS_PER_HOUR;
 	intra_df += end.M - beg.M;
 	intra_df *= SECS_PER_MIN;
 	intra_df += end.S - beg.S;
 	intra_df *= MSECS_PER_SEC;
-	intra_df += end.ms - beg.ms;
+	intra_df += MSEC_OF(end) - MSEC_OF(beg);
+#undef HOUR_OF
+#undef MSEC_OF
 
 	if (intra_df < 0) {
 		intra_df += MSECS_PER_DAY;
